@@ -240,6 +240,9 @@ def run(repo, rep):
         tr.check_function(repo.func('geodepy.coord', q), roles=('ellipsoid',))
     forward_rules(repo, rep)
     inverse_rules(repo, rep)
+    # the object wrappers of the observe_at list deliver these conversions unchanged (every notation of the result, heights, N value)
+    from . import c15
+    c15.delegation_rules(repo, rep, only=('CoordCart.geo', 'CoordGeo.cart'))
 
 
 def controls(repo):
